@@ -32,6 +32,7 @@ type Decision struct {
 }
 
 type Violation struct {
+	Clock  []string // model values of the harness clock readings (ns since year 1)
 	Kind   string // "assert", "index", "slice", "nil", "alloc", "panic", "divzero", "typeassert", "unwind", "race", "deadlock"
 	Site   string // human readable
 	Key    string // stable identity (known findings)
@@ -158,6 +159,8 @@ type Run struct {
 	macApps    []macApp
 	injApps    []injApp
 	syncMaps   map[string]*MapV
+	clockLog   []*Term
+	onceDone   map[string]bool
 	guard      *Term
 	merges     int
 	predDepth  int
@@ -180,6 +183,7 @@ type Engine struct {
 	ipdomDone  map[*ssa.Function]bool
 	mergePts   map[*ssa.BasicBlock]*ssa.BasicBlock
 	fnByName   map[string]*ssa.Function
+	nativeStubs map[string]*stubSpec
 }
 
 func (r *Run) addPC(c *Term) {
@@ -220,6 +224,9 @@ func (r *Run) model() []InputVal {
 func (r *Run) report(kind string, site Site, msg string) {
 	v := Violation{Kind: kind, Site: site.String(), Key: site.Key(kind), Msg: msg, Inputs: r.model(), Path: append([]Decision{}, r.taken...)}
 	v.Stubs = r.evalStubLog()
+	for _, c := range r.clockLog {
+		v.Clock = append(v.Clock, r.sol.Value(c).String())
+	}
 	r.viol = append(r.viol, v)
 }
 
